@@ -152,7 +152,11 @@ func (v *verifSched) loop(arm string, j *ScheduledJob, err error, pending, ongoi
 	if enqNil {
 		n = 1
 	}
-	v.rec.add("L %s %d %s %d %d %d %d %d", arm, verifJobID(j), verifClass(err), pending, ongoing, waiting, ready, n)
+	cls := verifClass(err)
+	if arm == "exit" {
+		cls = verifErrList(err)
+	}
+	v.rec.add("L %s %d %s %d %d %d %d %d", arm, verifJobID(j), cls, pending, ongoing, waiting, ready, n)
 }
 
 func (v *verifSched) tick(st State) {
